@@ -242,6 +242,7 @@ class LockRegions:
         self.flags = FlagInfo(body, self.cfg, getattr(getattr(prog, "facts", None), "adts", None))
         self.lock_id_fn = lock_id_fn or default_lock_id
         self.acquires = []  # (bb, lock_id, kind)
+        self._try_bbs = set()  # blocks whose call is a try_lock / try_read / try_write
         self._in = None
         self._run()
 
@@ -312,6 +313,25 @@ class LockRegions:
         k = term["k"]
         succs = self.cfg.succ[bb]
         if k == "switch":
+            # `match m.try_lock() { Ok(g) => .., Err(WouldBlock) => .. }`: nothing is held on
+            # the Err edge (a poisoned guard travels inside the error and is dropped with it)
+            d = term["discr"]
+            if d["k"] in ("copy", "move") and not d["place"]["p"] and holders:
+                src = None
+                for st in self.body.blocks[bb]["stmts"]:
+                    if st["k"] == "assign" and not st["place"]["p"] and st["place"]["l"] == d["place"]["l"] and st["rv"]["k"] == "discr" and not st["rv"]["place"]["p"]:
+                        src = st["rv"]["place"]["l"]
+                if src is not None and any(h[1] == src and h[2] in self._try_bbs for h in holders):
+                    out = []
+                    err_tgts = [tb for tv, tb in term["targets"] if str(tv) == "1"]
+                    ok_vals = [tb for tv, tb in term["targets"] if str(tv) == "0"]
+                    for s_ in succs:
+                        is_err = (s_ in err_tgts) or (not err_tgts and ok_vals and s_ not in ok_vals)
+                        if is_err and s_ not in ok_vals:
+                            out.append((s_, (flags, frozenset(h for h in holders if h[1] != src))))
+                        else:
+                            out.append((s_, world))
+                    return out
             f = self.flags.switch_flag(term)
             if f is not None:
                 l, neg = f
@@ -333,6 +353,11 @@ class LockRegions:
                 holders = frozenset(h for h in holders if h[1] != p["l"])
             return [(s, (flags, holders)) for s in succs]
         if k == "call":
+            fn0 = call_fn(term)
+            if fn0 and ckey(fn0) in ("std::result::Result::unwrap", "std::result::Result::expect") and term["args"]:
+                a0 = strip_wrap(self.bp.arg_term(bb, 0))
+                if a0[0] == "agg" and a0[1] == "adt:std::result::Result::Err":
+                    return []  # `Err(e).unwrap()` only panics
             acq = self._acq(bb, term)
             dst = term["dest"]["l"] if not term["dest"]["p"] else None
             moved = set()
@@ -347,6 +372,9 @@ class LockRegions:
                     hs.add((h[0], dst, h[2], h[3]))
             if acq is not None and dst is not None:
                 hs.add((acq[0], dst, bb, acq[1]))
+                fn_ = call_fn(term)
+                if fn_ and ckey(fn_) in ("std::sync::Mutex::try_lock", "std::sync::RwLock::try_read", "std::sync::RwLock::try_write"):
+                    self._try_bbs.add(bb)
             return [(s, (flags, frozenset(hs))) for s in succs]
         return [(s, world) for s in succs]
 
